@@ -398,6 +398,17 @@ Lemma flat_len {A} (f : A -> list token) (l : list A) :
   (List.length l <= List.length (flat_map (fun y => comma ++ f y) l))%nat.
 Proof. induction l as [|x l IH]; cbn [flat_map List.length]; [lia|]. rewrite !app_length. cbn [comma List.length]. lia. Qed.
 
+Lemma run_eat_string_miss_sim add k t : run (eat_string add) (sim k :: t) None (sim k :: t).
+Proof.
+  intros s Es. destruct s as [c0 r0 ex dc dm]. unfold toks_of in Es. cbn in Es. injection Es as -> ->.
+  destruct add; eexists; split; reflexivity.
+Qed.
+Lemma run_eat_text_block_miss_sim add k t : run (eat_text_block add) (sim k :: t) None (sim k :: t).
+Proof.
+  intros s Es. destruct s as [c0 r0 ex dc dm]. unfold toks_of in Es. cbn in Es. injection Es as -> ->.
+  destruct add; eexists; split; reflexivity.
+Qed.
+
 Section Suffix.
   Variable pexpr : P expr.
   Variable L : nat.
@@ -782,6 +793,56 @@ Section Suffix.
     eapply run_bind; [|apply run_ret].
     rewrite <- E0.
     apply (run_comp_loop more [CFor (strip_ident v) (strip_spans y)]); [cbn in Hlf; lia|exact Hall'|exact Hfo|exact Hnf|exact Hni].
+  Qed.
+
+  (* ---- object members (groundwork for EObject / EObjExt) *)
+  Lemma run_plus_vis plus vis t : t <> [] ->
+    run (eat_plus_visibility true) (sim (vis_tok plus vis) :: t) (Some (plus, vis)) t.
+  Proof.
+    intros Ht. destruct t as [|t1 r1]; [congruence|]. destruct plus, vis; run_compute.
+  Qed.
+
+  Lemma run_vis vis t : t <> [] ->
+    run (eat_visibility true) (sim (vis_tok false vis) :: t) (Some vis) t.
+  Proof.
+    intros Ht. destruct t as [|t1 r1]; [congruence|]. destruct vis; run_compute.
+  Qed.
+
+  Lemma run_field_name_ident i t : t <> [] ->
+    run (maybe_parse_field_name pexpr) (id_tok i :: t) (Some (FnIdent (strip_ident i))) t.
+  Proof.
+    intros Ht. unfold maybe_parse_field_name. apply run_call.
+    eapply run_orelse_hit; [unfold id_tok, tk; apply run_eat_ident_hit; exact Ht|apply run_ret].
+  Qed.
+
+  Lemma run_field_name_string x t : t <> [] ->
+    run (maybe_parse_field_name pexpr) (tk (TString x) :: t) (Some (FnString x sp0)) t.
+  Proof.
+    intros Ht. destruct t as [|t1 r1]; [congruence|]. run_compute.
+  Qed.
+
+  Lemma run_field_name_expr y t : core_expr y = true -> wpx 0 true y = true ->
+    (List.length (print_expr y) < L)%nat -> t <> [] ->
+    run (maybe_parse_field_name pexpr) (sim SLeftBracket :: print_expr y ++ sim SRightBracket :: t)
+        (Some (FnExpr (strip_spans y) sp0)) t.
+  Proof.
+    intros Hc Hw Hl Ht. unfold maybe_parse_field_name. apply run_call.
+    eapply run_orelse_miss; [apply run_eat_ident_miss; reflexivity|].
+    eapply run_orelse_miss; [apply run_eat_string_miss_sim|].
+    eapply run_orelse_miss; [apply run_eat_text_block_miss_sim|].
+    eapply run_orelse_hit; [apply run_eat_hit; [reflexivity|auto with rt]|].
+    eapply run_bind; [apply run_pexpr; [exact Hc|exact Hw|exact Hl|reflexivity|reflexivity]|].
+    eapply run_bind; [apply run_expect_hit; [reflexivity|exact Ht]|].
+    eapply run_bind; [apply run_mk_span0|apply run_ret].
+  Qed.
+
+  Lemma run_obj_local lf' b fo r : bind_ok b -> (List.length (print_bind b) <= lf')%nat ->
+    stopper fo = true -> is_simple KElse fo = false ->
+    run (maybe_parse_obj_local pexpr lf') (sim KLocal :: print_bind b ++ fo :: r) (Some (strip_bind b)) (fo :: r).
+  Proof.
+    intros Hok Hl Hs He. unfold maybe_parse_obj_local. apply run_call.
+    eapply run_orelse_hit; [apply run_eat_hit; [reflexivity|auto with rt]|].
+    eapply run_bind; [apply (run_bind_ lf' b fo r Hok Hl Hs He)|apply run_ret].
   Qed.
 End Suffix.
 
